@@ -264,6 +264,11 @@ func runC04(w *World, r *Report) {
 	r.Rule("exhaust", "list-decoding loops run while any element can remain", 6)
 	r.Rule("keepall", "an element consumed by a list loop is stored on every path", 0)
 	r.Rule("padstep", "branches of a list loop agree on stepping over alignment padding", 6)
+	r.Rule("errfail", "in the codecs a failed step fails the whole: the branch for a non-nil error returns a non-nil error (no log-and-continue that leaves an element out while counts and declared lengths still include it)", 50)
+	errFailRule(w, r, "errfail", func(fi *FuncInfo) bool {
+		n := fi.Pkg.Types.Name()
+		return n == "openflow13" || n == "protocol" || n == "common"
+	})
 	r.Rule("extent", "the size a decoded element reports — by which every list decoder steps to the next element — equals the bytes the element occupies (the C05 rule): a size that is off shifts everything decoded after it", 100)
 	extentRule(w, r, "extent")
 	r.Rule("liststep", "the advance over a list element is computed from that element, not from a value remembered from an earlier iteration", 6)
